@@ -184,6 +184,39 @@ fn build_app() -> Ohkami {
             let r = ran(json!({"p": [id.to_string()], "q": q, "j": j}));
             async move { r }
         }),
+        // the signature matrix: 1 and 2 path params x 1..4 extractors (Query, Option<JSON>, Option<Text>, Option<URLEncoded>)
+        "/sh11/:a".POST(|a: u32, Query(q): Query<QS>| {
+            let r = ran(json!({"p": [a.to_string()], "q": q}));
+            async move { r }
+        }),
+        "/sh12/:a".POST(|a: u32, Query(q): Query<QS>, j: Option<JSON<J>>| {
+            let r = ran(json!({"p": [a.to_string()], "q": q, "j": j.map(|x| x.0)}));
+            async move { r }
+        }),
+        "/sh13/:a".POST(|a: u32, Query(q): Query<QS>, j: Option<JSON<J>>, s: Option<Text<String>>| {
+            let r = ran(json!({"p": [a.to_string()], "q": q, "j": j.map(|x| x.0), "t": s.map(|x| x.0)}));
+            async move { r }
+        }),
+        "/sh14/:a".POST(|a: u32, Query(q): Query<QS>, j: Option<JSON<J>>, s: Option<Text<String>>, f: Option<URLEncoded<F>>| {
+            let r = ran(json!({"p": [a.to_string()], "q": q, "j": j.map(|x| x.0), "t": s.map(|x| x.0), "f": f.map(|x| x.0)}));
+            async move { r }
+        }),
+        "/sh21/:a/:b".POST(|(a, b): (u32, String), Query(q): Query<QS>| {
+            let r = ran(json!({"p": [a.to_string(), b], "q": q}));
+            async move { r }
+        }),
+        "/sh22/:a/:b".POST(|(a, b): (u32, String), Query(q): Query<QS>, j: Option<JSON<J>>| {
+            let r = ran(json!({"p": [a.to_string(), b], "q": q, "j": j.map(|x| x.0)}));
+            async move { r }
+        }),
+        "/sh23/:a/:b".POST(|(a, b): (u32, String), Query(q): Query<QS>, j: Option<JSON<J>>, s: Option<Text<String>>| {
+            let r = ran(json!({"p": [a.to_string(), b], "q": q, "j": j.map(|x| x.0), "t": s.map(|x| x.0)}));
+            async move { r }
+        }),
+        "/sh24/:a/:b".POST(|(a, b): (u32, String), Query(q): Query<QS>, j: Option<JSON<J>>, s: Option<Text<String>>, f: Option<URLEncoded<F>>| {
+            let r = ran(json!({"p": [a.to_string(), b], "q": q, "j": j.map(|x| x.0), "t": s.map(|x| x.0), "f": f.map(|x| x.0)}));
+            async move { r }
+        }),
         "/combo3/:id".POST(|id: i16, Query(q): Query<QS>, j: Option<JSON<J>>, s: Option<Text<String>>| {
             let r = ran(json!({"p": [id.to_string()], "q": q, "j": j.map(|x| x.0), "t": s.map(|x| x.0)}));
             async move { r }
@@ -370,7 +403,51 @@ fn gen_req() -> Req {
         expect,
         cut_body_fin: None,
     };
-    match t::weighted(&[6, 3, 2, 3, 3, 2, 2, 2, 2, 2, 2]) {
+    match t::weighted(&[6, 3, 2, 3, 3, 2, 2, 2, 2, 2, 2, 4]) {
+        11 => {
+            // the signature matrix
+            let np = 1 + t::draw(2) as usize;
+            let ne = 1 + t::draw(4) as usize;
+            let (seg, ptag, _w, pexp) = gen_int_segment(0, u32::MAX as i128);
+            let ptag = if ptag == "valid" && pexp.is_none() { "invalid" } else { ptag };
+            let (raw2, dec2) = gen_str_segment();
+            let s2 = String::from_utf8(dec2).ok();
+            let (q, qtag, qexp) = gen_qs();
+            let a = t::string(b"abcXYZ019", 0, 6);
+            let n = t::range(0, 200) as i32 - 100;
+            let (ct, body, j, tx, f): (Option<&str>, Option<Vec<u8>>, Value, Value, Value) = match t::draw(4) {
+                0 => (None, None, Value::Null, Value::Null, Value::Null),
+                1 => {
+                    let jj = gen_j();
+                    (Some("application/json"), Some(serde_json::to_vec(&jj).unwrap()), serde_json::to_value(&jj).unwrap(), Value::Null, Value::Null)
+                }
+                2 => (Some("text/plain"), Some(b"plain text".to_vec()), Value::Null, json!("plain text"), Value::Null),
+                _ => (Some("application/x-www-form-urlencoded"), Some(format!("a={a}&n={n}").into_bytes()), Value::Null, Value::Null, json!(F { a: a.clone(), n })),
+            };
+            let tags = [ptag, qtag];
+            let tag = if tags.contains(&"invalid") { "invalid" } else if tags.contains(&"grey") { "grey" } else { "valid" };
+            let expect = match (pexp, qexp, &s2) {
+                (Some(p), Some(q), s2) if tag == "valid" && (np == 1 || s2.is_some()) => {
+                    let mut o = serde_json::Map::new();
+                    o.insert("p".into(), if np == 1 { json!([p]) } else { json!([p, s2.clone().unwrap()]) });
+                    o.insert("q".into(), json!(q));
+                    if ne >= 2 {
+                        o.insert("j".into(), j);
+                    }
+                    if ne >= 3 {
+                        o.insert("t".into(), tx);
+                    }
+                    if ne >= 4 {
+                        o.insert("f".into(), f);
+                    }
+                    Some(Value::Object(o))
+                }
+                _ => None,
+            };
+            let path = if np == 1 { format!("/sh1{ne}/{seg}") } else { format!("/sh2{ne}/{seg}/{raw2}") };
+            let tag = if np == 2 && s2.is_none() && tag == "valid" { "grey" } else { tag };
+            mk("POST", format!("{path}{}", if q.is_empty() { String::new() } else { format!("?{q}") }), ct, body, tag, "shape", "signature-matrix", expect)
+        }
         0 => {
             let (name, lo, hi) = t::pick(&INTS);
             let (seg, tag, what, exp) = gen_int_segment(lo, hi);
